@@ -17,7 +17,10 @@ PROPERTY = "C03"
 RULE = (
     "Differential check against NumPy's namesake for every registered ufunc (37), every __array_function__ override "
     "that has parameters we can draw (reductions, cumulative ops, shape/view ops, joins, einsum, clip, where, norm, "
-    "repeat, roll), Tensor methods and operator dunders incl. reflected (python scalar / ndarray on the left) forms. "
+    "repeat, roll), Tensor methods and operator dunders incl. reflected (python scalar / ndarray on the left) forms, and "
+    "the non-differentiable ufuncs that Tensor.__array_ufunc__ forwards to the wrapped arrays (comparisons, logical_*, "
+    "isnan/isfinite/isinf/signbit; floor_divide, remainder, mod, fmod, rint, sign, floor, ceil, trunc on constant tensors) "
+    "with the comparison and // operators. "
     "Operands: tensors, plain ndarrays, python bool/int/float and NumPy scalars of bool_, int8, int32, int64, uint8, "
     "float16, float32, float64; 0-d, empty, broadcast families, F / negative-stride / sliced / 0-stride / relaxed "
     "layouts; keyword options the MyGrad signature has (axis, keepdims, ddof, where=, dtype=, out=ndarray). Oracle: "
@@ -38,6 +41,15 @@ UNARY_UFUNCS = ["negative", "positive", "square", "reciprocal", "exp", "exp2", "
 BINARY_UFUNCS = ["add", "subtract", "multiply", "divide", "power", "maximum", "minimum", "arctan2", "logaddexp", "logaddexp2"]
 OPERATORS = {"op_add": operator.add, "op_sub": operator.sub, "op_mul": operator.mul, "op_truediv": operator.truediv,
              "op_pow": operator.pow, "op_matmul": operator.matmul}
+# non-differentiable NumPy ufuncs and the operators built on them: evaluated on the wrapped arrays, return ndarrays
+# (the second group accepts constant tensors only - that rule is C11's subject; here tensors are made constant)
+BOOL_UN = ["isnan", "isfinite", "isinf", "signbit", "logical_not"]
+BOOL_BIN = ["equal", "not_equal", "less", "less_equal", "greater", "greater_equal", "logical_and", "logical_or", "logical_xor"]
+CONST_UN = ["rint", "sign", "floor", "ceil", "trunc"]
+CONST_BIN = ["floor_divide", "remainder", "mod", "fmod"]
+NONDIFF_OPERATORS = {"op_eq": operator.eq, "op_ne": operator.ne, "op_lt": operator.lt, "op_le": operator.le,
+                     "op_gt": operator.gt, "op_ge": operator.ge, "op_floordiv": operator.floordiv}
+NONDIFF = BOOL_UN + BOOL_BIN + CONST_UN + CONST_BIN
 REDUCE = ["sum", "mean", "prod", "max", "min", "var", "std"]
 VIEWS = ["reshape", "ravel", "squeeze", "expand_dims", "broadcast_to", "transpose", "swapaxes", "moveaxis", "atleast_1d",
          "atleast_2d", "atleast_3d", "getitem", "T", "flatten"]
@@ -57,6 +69,12 @@ def _np_call(name, a, p):
         return f(*a, **kw)
     if name in OPERATORS:
         return OPERATORS[name](a[0], a[1])
+    if name in NONDIFF:
+        return getattr(np, name)(*a)
+    if name in NONDIFF_OPERATORS:
+        if not any(isinstance(x, np.ndarray) for x in a):
+            a = [np.asarray(a[0]), a[1]]  # (never reached: one operand is a tensor, i.e. an array on this side)
+        return NONDIFF_OPERATORS[name](a[0], a[1])
     if name == "op_neg":
         return -a[0]
     if name == "op_pos":
@@ -134,6 +152,10 @@ def _mg_call(mg, name, a, p):
         return f(*a, **kw)
     if name in OPERATORS:
         return OPERATORS[name](a[0], a[1])
+    if name in NONDIFF:
+        return getattr(np, name)(*a)  # NumPy's function on tensors: Tensor.__array_ufunc__
+    if name in NONDIFF_OPERATORS:
+        return NONDIFF_OPERATORS[name](a[0], a[1])
     if name == "op_neg":
         return -a[0]
     if name == "op_pos":
@@ -154,7 +176,8 @@ def _operand(draw, shape, force_tensor=False, allow_scalar=True):
     kind = "tensor" if force_tensor else draw(st.sampled_from(kinds))
     dtype = draw(st.sampled_from(DTYPES))
     if kind in ("pyfloat", "pyint", "pybool"):
-        return {"kind": kind, "v": draw(st.integers(0, 4)) if kind != "pybool" else draw(st.integers(0, 1)), "half": draw(st.booleans())}
+        return {"kind": kind, "v": draw(st.integers(0, 4)) if kind != "pybool" else draw(st.integers(0, 1)), "half": draw(st.booleans()),
+                "tenth": draw(st.booleans())}  # (+0.1: a python float that float16/float32 cannot represent)
     if kind == "npscalar":
         return {"kind": kind, "dtype": dtype, "v": draw(st.integers(0, 4))}
     n = int(np.prod(shape)) if shape else 1
@@ -163,6 +186,8 @@ def _operand(draw, shape, force_tensor=False, allow_scalar=True):
     if layout == "relaxed" and 1 not in shape:
         layout = None
     out = {"kind": kind, "dtype": dtype, "shape": list(shape), "vals": vals, "layout": layout, "half": draw(st.booleans())}
+    if draw(st.integers(0, 3)) == 0:
+        out["tenth"] = True
     if draw(st.integers(0, 5)) == 0:
         out["scale"] = draw(st.sampled_from([100, 1000, 6000]))  # large magnitudes (float16 accumulators, overflow)
     return out
@@ -172,7 +197,7 @@ def _array(o):
     dt = np.dtype(o["dtype"])
     v = np.array(o["vals"], dtype=np.float64)
     if dt.kind == "f":
-        a = ((v / 2.0 if o.get("half") else v) * o.get("scale", 1)).astype(dt)
+        a = ((v / 2.0 if o.get("half") else v) * o.get("scale", 1) + (0.1 if o.get("tenth") else 0.0)).astype(dt)
     elif dt.kind == "b":
         a = (v.astype(np.int64) % 2).astype(bool)
     elif dt.kind == "u":
@@ -189,7 +214,7 @@ def build_operand(mg, o):
     """returns (numpy-side operand, mygrad-side operand)"""
     k = o["kind"]
     if k == "pyfloat":
-        x = float(o["v"]) + (0.5 if o["half"] else 0.0)
+        x = float(o["v"]) + (0.5 if o["half"] else 0.0) + (0.1 if o.get("tenth") else 0.0)
         return x, x
     if k == "pyint":
         return int(o["v"]), int(o["v"])
@@ -201,13 +226,13 @@ def build_operand(mg, o):
     a = _array(o)
     if k == "array":
         return a, a
-    return a, mg.tensor(a, copy=not (o.get("layout") and a.ndim), constant=None)
+    return a, mg.tensor(a, copy=not (o.get("layout") and a.ndim), constant=o.get("constant"))
 
 
 @st.composite
 def cases(draw):
     fam = draw(st.sampled_from(["unary", "unary", "binary", "binary", "binary", "operator", "operator", "reduce", "reduce", "cum",
-                                "view", "view", "shape", "join", "misc"]))
+                                "view", "view", "shape", "join", "misc", "nondiff", "nondiff"]))
     base = draw_shape(draw, max_ndim=3, max_side=3, cap=18, min_side=0 if draw(st.integers(0, 9)) == 0 else 1)
     p = {}
     ops = []
@@ -250,6 +275,34 @@ def cases(draw):
                 ops[cand[0]]["kind"] = "tensor"
             else:
                 ops[0] = _operand(draw, base, force_tensor=True)
+    elif fam == "nondiff":
+        name = draw(st.sampled_from(NONDIFF + sorted(NONDIFF_OPERATORS) * 2))
+        if name in BOOL_UN + CONST_UN:
+            ops = [_operand(draw, base, force_tensor=True)]
+        else:
+            ops = [_operand(draw, base), _operand(draw, shape_variant(draw, base))]
+            if draw(st.booleans()):
+                ops = ops[::-1]
+            if not any(o["kind"] == "tensor" for o in ops):
+                cand = [i for i, o in enumerate(ops) if "shape" in o]
+                if cand:
+                    ops[cand[0]]["kind"] = "tensor"
+                else:
+                    ops[0] = _operand(draw, base, force_tensor=True)
+        sc = [o for o in ops if o["kind"] == "pyfloat"]
+        tn = [o for o in ops if o["kind"] == "tensor" and o.get("vals")]
+        if sc and tn and draw(st.booleans()):
+            # a python float that low-precision floats cannot represent, equal (as a decimal) to an element of the
+            # tensor: the comparison then depends on whether the scalar is weakly typed (NEP 50) as it is for NumPy
+            tn[0].update(tenth=True, half=False)
+            tn[0].pop("scale", None)
+            tn[0]["vals"] = [abs(v) % 5 for v in tn[0]["vals"]]
+            sc[0].update(tenth=True, half=False, v=tn[0]["vals"][0])
+        const_only = name in CONST_UN + CONST_BIN + ["op_floordiv"]
+        for o in ops:
+            if o["kind"] == "tensor":
+                # (floor_divide & co. refuse non-constant tensors by design; comparisons take either)
+                o["constant"] = True if const_only else draw(st.sampled_from([None, True]))
     elif fam == "reduce":
         name = draw(st.sampled_from(REDUCE))
         ops = [_operand(draw, base, allow_scalar=False)]
